@@ -189,7 +189,7 @@ def fail_key(f):
     return jhash([f.get("kind"), f.get("sig")])
 
 
-def run_check(mod, tier, seed, replay=None, max_judged=6):
+def run_check(mod, tier, seed, replay=None, max_judged=int(os.environ.get("VERIF_MAX_JUDGED", "6"))):
     """drives one check; returns the process exit status"""
     prop = mod.PROP
     modname = mod.__name__
